@@ -38,7 +38,8 @@ class C04(Property):
                   "and the response); Flusher/Hijacker/Pusher pass-throughs are outside the handler behaviours covered.")
     rule = ("REST: scripts of 0..7 actions (header set/add/del, WriteHeader incl. invalid codes, Write chunks, ctx check, panic), "
             "D = none | cancel | real timeout / parent deadline | race at EVERY script position, plus websocket/SSE/zero-timeout "
-            "exemptions; zRPC server + fx: work scripts with D at every position; client interceptor and rest engine: timeout "
+            "exemptions; sequences of 2-3 requests through ONE TimeoutHandler instance with the first handler abandoned at its "
+            "timeout and released at every position of the later request's life; zRPC server + fx: work scripts with D at every position; client interceptor and rest engine: timeout "
             "selection. Non-trivial = D fired strictly inside the script (not before the first or after the last action) and "
             "the script writes at least one body chunk or header, or (slot) D fired while the work was running; distinct = "
             "canonical JSON hash of the input")
@@ -120,7 +121,8 @@ class C04(Property):
 
     def gen(self, rng, n, tier):
         cases = []
-        n_rest = n if not self._slots_enabled() else (n * 6) // 10
+        n_rest = n if not self._slots_enabled() else (n * 45) // 100
+        n_seq = (n * 20) // 100
         while len(cases) < n_rest:
             script = self._script(rng)
             h0 = self._h0(rng)
@@ -145,9 +147,79 @@ class C04(Property):
             elif x < 0.65:
                 cases.append(self._rest(script, h0, "cancel", pos, dur=rng.choice([0, -5]), parent=par))
         cases = cases[:max(n_rest, 1)]
+        cases += self._gen_seq(rng, n_seq)
         if self._slots_enabled():
             cases += self._gen_slots(rng, n - len(cases))
         return cases
+
+    # sequences: several requests through one middleware instance --------------------
+    def _seq_script(self, rng, who, full):
+        lo, hi = (128, 191) if who == 0 else (192, 255)
+        vals = (1, 4) if who == 0 else (5, 9)
+        codes = [201, 404, 500] if who == 0 else [204, 301, 400, 502]
+        acts = []
+        for _ in range(rng.choice([1, 2, 3, 3, 4, 5])):
+            r = rng.random()
+            if r < 0.2:
+                acts.append(["set", rng.randint(1, 3), rng.randint(*vals)])
+            elif r < 0.3:
+                acts.append(["add", rng.randint(1, 3), rng.randint(*vals)])
+            elif r < 0.35:
+                acts.append(["del", rng.randint(1, 3)])
+            elif r < 0.5:
+                acts.append(["wh", rng.choice(codes) if rng.random() < 0.9 else rng.choice(BAD_CODES)])
+            elif r < 0.9 or not full:
+                acts.append(["w", [rng.randint(lo, hi) for _ in range(rng.choice([1, 1, 2, 3]))]])
+            elif r < 0.96:
+                acts.append(["chk"])
+            else:
+                acts.append(["panic", rng.randint(1, 9)])
+        return acts
+
+    def _seq(self, reqs, order):
+        c = {"kind": "seq", "dur_ns": HOUR, "reqs": reqs, "order": order}
+        c["procs"] = int(vlib.canon_hash(c), 16) % 2       # half of them on a single P (per-P caches)
+        return c
+
+    def _gen_seq(self, rng, n):
+        cases = []
+        while len(cases) < n:
+            a = self._seq_script(rng, 0, False)      # the abandoned handler ignores its context
+            b = self._seq_script(rng, 1, True)
+            reqs = [{"h0": self._h0(rng), "script": a}, {"h0": self._h0(rng), "script": b}]
+            ka = rng.randint(0, len(a))
+            head = [["start", 0]] + [["H", 0]] * ka + [["D", 0]]
+            late = [["H", 0]] * (len(a) + 1 - ka)
+            bseq = [["start", 1]] + [["H", 1]] * (len(b) + 1)
+            # A's remaining actions as one block at every position of B's life
+            for p in range(len(bseq) + 1):
+                cases.append(self._seq(reqs, head + bseq[:p] + late + bseq[p:]))
+            # spread: one late action of A after each of B's
+            mix, la = [], list(late)
+            for e in bseq:
+                mix.append(e)
+                if la:
+                    mix.append(la.pop())
+            cases.append(self._seq(reqs, head + mix + la))
+            # B is cancelled too, somewhere; A's late actions after that
+            p = rng.randint(1, len(bseq))
+            cases.append(self._seq(reqs, head + bseq[:p] + [["D", 1]] + late[:1] + bseq[p:] + late[1:]))
+            # both in flight from the start, random merge, A cancelled somewhere
+            xs = [["H", 0]] * (len(a) + 1)
+            ys = [["H", 1]] * (len(b) + 1)
+            merged = []
+            while xs or ys:
+                src = xs if (xs and (not ys or rng.random() < 0.5)) else ys
+                merged.append(src.pop())
+            merged.insert(rng.randint(0, len(merged)), ["D", 0])
+            cases.append(self._seq(reqs, [["start", 0], ["start", 1]] + merged))
+            # a third request after the two
+            if rng.random() < 0.3:
+                c3 = self._seq_script(rng, 1, True)
+                r3 = reqs + [{"h0": [], "script": c3}]
+                cases.append(self._seq(r3, head + bseq[:2] + late[:1] + bseq[2:] + [["start", 2]] + late[1:2]
+                                       + [["H", 2]] * (len(c3) + 1) + late[2:]))
+        return cases[:n]
 
     def _slots_enabled(self):
         return True
@@ -264,7 +336,7 @@ class C04(Property):
         return obs
 
     def _exec_kind(self, kind, sub):
-        if kind in ("rest", "fx"):
+        if kind in ("rest", "fx", "seq"):
             rc, out, res = vlib.go_run(self.bin, sub, tag="c04" + kind, timeout=900)
             if rc != 0:
                 raise ExecError("c04 executor rc=%s: %s" % (rc, out[-2000:]))
@@ -316,7 +388,7 @@ class C04(Property):
                           if a[0] in ("set", "add", "del", "w") or (a[0] == "wh" and a[1] in CODES)]
                 free.append({"id": i, "kind": "free", "req": "plain", "dur_ns": 0, "parent_ns": None,
                              "h0": self._h0(rng), "script": script, "d": {"mode": "none", "pos": 1500}})
-            forced = [c for c in self.gen(rng, 400, "thorough") if c["kind"] in ("rest", "fx")]
+            forced = [c for c in self.gen(rng, 400, "thorough") if c["kind"] in ("rest", "fx", "seq")]
             for j, c in enumerate(forced):
                 c["id"] = 1000 + j
             rc, out, rs = vlib.go_run(res, free + forced, tag="c04race", timeout=1200)
@@ -419,6 +491,8 @@ class C04(Property):
             return self._coq_rest(case, obs)
         if k in ("zrpc", "fx"):
             return self._coq_slot(case, obs)
+        if k == "seq":
+            return self._coq_seq(case, obs)
         if k == "client":
             return "CClient (mkClient %s %s %s %s %s %s %s)" % (
                 clist([cz(x) for x in case["opts"]]), cz(case["default_ns"]), self._optz(case["parent_ns"]),
@@ -429,6 +503,24 @@ class C04(Property):
                 cz(case["route_ns"]), cz(case["conf_ms"]), self._optz(case["parent_ns"]),
                 self._optz(obs["dl_seen_ns"] if obs["has_dl"] else None), cz(obs["t1_ns"]))
         raise ExecError("unknown kind")
+
+    def _coq_seq(self, c, o):
+        cancelled = set(e[1] for e in c["order"] if e[0] == "D")
+        rs = []
+        for i, (rin, ro) in enumerate(zip(c["reqs"], o["reqs"])):
+            sout = {"wait": "SoWait", "ret": "SoRet"}.get(ro["sout"])
+            if sout is None:
+                sout = "(SoPanic %s)" % self._pval(ro["pkind"], ro["pval"])
+            if o.get("stuck", -1) == i:
+                sout = "SoWait"      # one of its handler's actions hung: the request never completed
+            rs.append("(mkSR %s)" % " ".join([
+                self._hdrs(rin["h0"]), clist([self._act(a) for a in rin["script"]]),
+                copt("KCancel" if i in cancelled else None), sout, cz(ro["status"]), self._hdrs(ro["snap"]),
+                self._hdrs(ro["live"]), clist([cz(b) for b in ro["body"]]), cz(ro["extra"]), cz(ro["late"]),
+                cz(ro["foreign"])]))
+        sched = clist(["(%d%%nat, %s)" % (i, self._ev(e)) for i, e in o["sched"]])
+        hobs = clist(["(%d%%nat, %s)" % (x[0], self._ares(x[1:])) for x in o["hobs"]])
+        return "CSeq (mkSeq %s %s %s %s %s)" % (cz(c["dur_ns"]), clist(rs), sched, hobs, cz(o["ret_at_d"]))
 
     def _coq_slot(self, c, o):
         fin = c["fin"]
@@ -495,6 +587,16 @@ class C04(Property):
             n = len(case["script"])
             writes = any(a[0] in ("w", "set", "add", "wh") for a in case["script"])
             return case["d"]["mode"] != "none" and 0 < case["d"]["pos"] <= n and writes and case["req"] == "plain"
+        if case["kind"] == "seq":
+            # an abandoned handler acted (at least one write attempt) while or after a later request was served
+            s = obs["sched"]
+            first_t = next((j for j, e in enumerate(s) if e[1] == "St"), None)
+            if first_t is None:
+                return False
+            i = s[first_t][0]
+            later = s[first_t + 1:]
+            return any(e[0] == i and e[1] == "H" for e in later) and any(e[0] != i and e[1] == "H" for e in later) \
+                and any(x[0] == i and x[1] == "wto" for x in obs["hobs"])
         if case["kind"] in ("zrpc", "fx"):
             return case["d"]["mode"] != "none" and 0 < case["d"]["pos"] <= len(case["steps"])
         if case["kind"] == "client":
@@ -525,6 +627,12 @@ class C04(Property):
                 fs.append("rest:has_ctx_check")
             if any(a[0] == "panic" for a in case["script"]):
                 fs.append("rest:has_panic")
+        if case["kind"] == "seq":
+            fs.append("seq:reqs=%d" % len(case["reqs"]))
+            for i, r in enumerate(obs["reqs"]):
+                fs.append("seq:req%d=%s" % (i, "timeout" if r["status"] == 499 else r["sout"]))
+            if any(x[1] == "wto" for x in obs["hobs"]):
+                fs.append("seq:late_write_refused")
         if case["kind"] in ("zrpc", "fx"):
             k = case["kind"]
             fs.append(k + ":mode=" + case["d"]["mode"])
@@ -557,6 +665,25 @@ class C04(Property):
                     c = copy.deepcopy(case)
                     c["script"][j] = ["w", a[1][:1]]
                     res.append(c)
+        if case["kind"] == "seq":
+            for i, r in enumerate(case["reqs"]):
+                for j in range(len(r["script"])):
+                    c = copy.deepcopy(case)
+                    c["reqs"][i]["script"] = r["script"][:j] + r["script"][j + 1:]
+                    # one release less for that handler (the last one)
+                    idx = [t for t, e in enumerate(c["order"]) if e == ["H", i]]
+                    if idx:
+                        del c["order"][idx[-1]]
+                    res.append(c)
+                if r["h0"]:
+                    c = copy.deepcopy(case)
+                    c["reqs"][i]["h0"] = []
+                    res.append(c)
+            if len(case["reqs"]) > 2:
+                c = copy.deepcopy(case)
+                c["reqs"] = c["reqs"][:2]
+                c["order"] = [e for e in c["order"] if e[1] < 2]
+                res.append(c)
         if case["kind"] in ("zrpc", "fx"):
             st = case["steps"]
             for j in range(len(st)):
@@ -582,6 +709,10 @@ class C04(Property):
                     "response or the re-raised panic; or something was written after the timeout / a late Write was not "
                     "refused; or the handler's deadline exceeds min(caller's, now+timeout); or ServeHTTP did not return "
                     "at the deadline")
+        if case["kind"] == "seq":
+            return ("several requests through one TimeoutHandler: a request's response is not all-or-nothing w.r.t. its "
+                    "OWN script (something of another request's abandoned handler appears), or a late write of the "
+                    "abandoned handler was accepted, or its timeout reply changed")
         return "timeout wrapper: outcome is not all-or-nothing / deadline not shrunk / wrapper did not return at the deadline"
 
 
